@@ -778,7 +778,7 @@ def build_work(tier, engines, rs):
         if extra:
             # the further mesh classes: a seeded sample of their planes in quick (the planes through vertices, along
             # edges and faces are the majority of the lattice planes), every plane in one presentation in thorough
-            pick = sorted(rs.choice(len(planes), size=min(len(planes), 10 ** 6 if thorough else 44), replace=False).tolist())
+            pick = sorted(rs.choice(len(planes), size=min(len(planes), 10 ** 6 if thorough else 80), replace=False).tolist())
             planes = [planes[k] for k in pick]
         for k, (n, c2) in enumerate(planes):
             if not extra:
@@ -820,8 +820,13 @@ def build_work(tier, engines, rs):
             work.append(("pair", "%s/r%d" % (base, q % 3), wid, p1, p2, q % 3 == 1))
             wid += 1
         # capped slicing by two planes (only where the exact result lives on a grid coarse enough for cubic terms)
+        if engines and base == "subcube":
+            # directed: p2 contains three collinear vertices of the cap of p1 (finding CapSlitThroughCollinearCapVertices)
+            for q, eng in enumerate(rot_eng):
+                work.append(("capm", "subcube/r%d" % (q % 3), wid, ((0, -1, 1), -1), ((0, 1, 0), 4), eng))
+                wid += 1
         if engines and base not in NOT_SOLID and base != "uhole":
-            want = (400 if thorough else 70) if base in ("tet", "cube", "octa", "subcube") else (150 if thorough else 24)
+            want = (400 if thorough else 120) if base in ("tet", "cube", "octa", "subcube") else (150 if thorough else 40)
             got = tries = 0
             while got < want and tries < 40 * want:
                 tries += 1
@@ -839,7 +844,7 @@ def build_work(tier, engines, rs):
         if extra:
             continue
         # magnitudes: the same pairs for a scaled / translated copy of the seed; textured copies of the seed
-        pick = rs.choice(len(planes), size=min(len(planes), 200 if thorough else 30), replace=False).tolist()
+        pick = rs.choice(len(planes), size=min(len(planes), 200 if thorough else 50), replace=False).tolist()
         for q, k in enumerate(pick):
             n, c2 = planes[k]
             if not positive_rep(n):
@@ -852,7 +857,7 @@ def build_work(tier, engines, rs):
                 work.append(("multi", "%s/r%d" % (base, q % 3), wid, n, cs, {"move": MOVES[(q + bi + 1) % len(MOVES)]}))
                 wid += 1
         if base in ("cube", "hole", "two"):
-            pick = rs.choice(len(planes), size=min(len(planes), 150 if thorough else 24), replace=False).tolist()
+            pick = rs.choice(len(planes), size=min(len(planes), 150 if thorough else 40), replace=False).tolist()
             for q, k in enumerate(pick):
                 n, c2 = planes[k]
                 if not positive_rep(n):
